@@ -1021,7 +1021,7 @@ theorem fa_closeLoop (d : Handle) (fuel : Nat) : Calls (ForkArgv A) (closeStdin.
     simp only [bind_eq, pure_eq, call_bind]
     repeat' (first | exact ih | fa_step)
 
-theorem fa_closeStdin (md : Maildir) : Calls (ForkArgv A) (closeStdin md) := by
+theorem fa_closeStdin (fuel : Nat) (md : Maildir) : Calls (ForkArgv A) (closeStdin fuel md) := by
   unfold closeStdin
   simp only [bind_eq, pure_eq, call_bind]
   repeat' (first | exact fa_closeLoop _ _ | fa_step)
@@ -1040,7 +1040,7 @@ theorem fa_paths (env : PEnv) (orc : EvalOracles) (input : Bytes) (b : ConfBlock
   | nil => rw [paths_nil]; exact Calls.ret_intro _
   | cons p more ih =>
     rw [paths_cons]
-    repeat' (first | exact ih _ | exact fa_walk _ _ _ _ _ _ | exact fa_maildirOpendir _ _ | exact fa_maildirClose _ | exact fa_maildirStdin _ _ | exact fa_closeStdin _ | fa_step)
+    repeat' (first | exact ih _ | exact fa_walk _ _ _ _ _ _ | exact fa_maildirOpendir _ _ | exact fa_maildirClose _ | exact fa_maildirStdin _ _ | exact fa_closeStdin _ _ | fa_step)
 
 theorem ForkArgv.mono {A B : List Bytes → Prop} (h : ∀ av, A av → B av) {c : Call} (hc : ForkArgv A c) : ForkArgv B c := by
   cases c <;> first | exact True.intro | exact h _ hc
